@@ -31,7 +31,10 @@ RULE = (
     "grouped record, evaluated on sequences of grouped records of different shapes (members, field names, a name typed "
     "differently) by one long-lived selector object per engine and by fresh ones, in both orders.  The text values and "
     "literals include characters with special case mappings (sharp s, final sigma, micro sign, long s, ligature, dotted "
-    "and dotless i, titlecase digraph).  A case is non-trivial when the reference evaluator defines it (every "
+    "and dotless i, titlecase digraph).  Part 1f: multi-clause generators whose later iterables are generator "
+    "expressions, decided at outer index >= 1.  Part 1g (enumerated): every proper prefix of a whitelisted type path not "
+    "ending at a component boundary and one-character extensions of the paths, as bare / dotted name in value, call and "
+    "attribute position: both engines must reject (a dotted one may also be treated as a missing attribute).  A case is non-trivial when the reference evaluator defines it (every "
     "sub-expression evaluated eagerly without error) and it reads at least one field; distinct = distinct (expression, "
     "pool seed, record index).  Oracle: an independent AST walker giving every node its Python meaning "
     "(verif/refselector.py), itself cross-checked against builtin eval on every defined case without a typed matcher. "
@@ -80,7 +83,7 @@ REQUIRED_KINDS = (
     + ["call:" + k for k in ("lower", "upper", "name", "names", "has_field", "field_contains", "field_equals", "field_regex", "str", "repr",
                              "any", "all", "net.ipaddress", "net.ipnetwork")]
     + ["kw:nocase", "kw:word_boundary"]
-    + ["gen:1for", "gen:2for", "gen:if"]
+    + ["gen:1for", "gen:2for", "gen:3for", "gen:if", "gen:iter-genexp"]
     + ["type:" + k for k in ("Eq", "NotEq", "Lt", "LtE", "Gt", "GtE", "contains", "attr", "as-fields")]
 )
 
@@ -167,6 +170,10 @@ def node_kinds(tree):
                 kinds.add("type:as-fields")
         elif isinstance(n, ast.GeneratorExp):
             kinds.add("gen:1for" if len(n.generators) == 1 else "gen:2for")
+            if len(n.generators) >= 3:
+                kinds.add("gen:3for")
+            if any(isinstance(g.iter, ast.GeneratorExp) for g in n.generators[1:]):
+                kinds.add("gen:iter-genexp")   # a one-shot iterable that must be rebuilt per value of the enclosing clause
             if any(g.ifs for g in n.generators):
                 kinds.add("gen:if")
         elif isinstance(n, (ast.List, ast.Tuple)):
@@ -366,6 +373,21 @@ def generate(ctx):
                         if ctx.mine(idx):
                             yield {"k": "grouped-seq", "kind": "grouped", "expr": expr, "tags": [], "pool": ps, "recs": recs}
                         idx += 1
+    # part 1f: multi-clause generators whose 2nd / 3rd iterable is a generator expression, decided at outer index >= 1
+    for ps in pool_seeds[:ctx.scale(2, 4)]:
+        pool = pool_for(ctx, ps)
+        for ri in range(0, 8):
+            for expr in genexp_iterable_exprs(pool[ri]):
+                if ctx.mine(idx):
+                    yield {"k": "gen-iterable", "kind": "gen:iter-genexp", "expr": expr, "tags": ["generator-iterable"], "pool": ps, "rec": ri}
+                idx += 1
+    # part 1g: near-miss identifiers (prefixes / one-char extensions of whitelisted type paths) are outside the language
+    for name, dotted in near_miss_names():
+        for expr in near_miss_exprs(name, dotted):
+            if ctx.mine(idx):
+                yield {"k": "near-miss", "kind": "dotted" if dotted else "bare", "expr": expr, "name": name, "tags": [], "pool": pool_seeds[0],
+                       "rec": idx % 6}
+            idx += 1
     # part 2: random expressions, deeper
     n = ctx.scale(450, 14000)
     depths = [0, 1, 2, 2, 3, 3] if ctx.quick else [1, 2, 3, 3, 4, 4, 5, 6]
@@ -410,6 +432,125 @@ def grouped_exprs(g):
         out += ["%r in r.l" % v[0]]
     out += ["Type.string == 'nowhere'", "Type.varint == -7"]
     return out
+
+
+def genexp_iterable_exprs(rec):
+    """any / all over several for clauses where a later clause iterates over a generator expression; built from the
+    record's own list values so that the deciding combination needs an element of the outer list at index >= 1."""
+    out = []
+    l, nl, sl = rec.l, rec.nl, rec.sl
+    if l and len(l) >= 2:
+        last = str(l[-1])
+        out += [
+            "any(a == b for a in r.l for b in (x for x in [%r, 'q-q']))" % last,
+            "any(a == b for a in r.l for b in (x for x in [%r]))" % last,
+            "all(a != b for a in r.l for b in (x for x in [%r]))" % last,
+            "any(lower(a) == b for a in r.l for b in (lower(x) for x in [%r, 'q-q']))" % last.upper(),
+            "any(a + '!' == b for a in r.l for b in (x + '!' for x in r.l if x == %r))" % last,
+            "any(a == b for a in r.l for b in (x for x in r.l if x != %r))" % str(l[0]),
+            "all(any(a == b for b in (x for x in [%r, %r])) for a in r.l)" % (str(l[0]), last),
+            "any(a == b and n == n for n in [1, 2] for a in r.l for b in (x for x in [%r]))" % last,
+            "any(n == 2 and a == b for n in [1, 2] for a in (x for x in r.l) for b in (y for y in [%r]))" % last,
+            "any(a == b for a in r.l for b in (x for x in [a]) if a == %r)" % last,
+        ]
+        if sl:
+            out += ["any(a == b for a in r.l for b in (lower(x) for x in r.sl))", "all(a != b for a in r.l for b in (upper(x) for x in r.sl))",
+                    "any(a == b for c in r.sl for a in (x for x in r.l) for b in (y for y in r.sl))"]
+    if nl and len(nl) >= 2:
+        a, b = int(nl[-1]), int(nl[-1]) + 4
+        out += [
+            "any(n * m == %d for n in r.nl for m in (k + 4 for k in r.nl))" % (a * b),
+            "any(n + m == %d for n in r.nl for m in (k for k in [%d]))" % (a + 1000, 1000),
+            "all(n + m != %d for n in r.nl for m in (k for k in [%d]))" % (a + 1000, 1000),
+            "any(n == m for n in r.nl for m in (k for k in r.nl if k == %d))" % a,
+            "any(n == m for n in r.nl for m in (k for k in [1000, %d]) if n >= 0)" % a,
+        ]
+    return out
+
+
+def near_miss_names():
+    """-> sorted list of (name, dotted).  Every proper string prefix of a whitelisted type path that does not end at a
+    component boundary, plus one-character extensions of the complete paths - minus everything that IS in the language
+    or in Python (exact type paths, namespaces leading to one, r / Type / helper names, builtins, keywords) and minus
+    dotted names that really exist as attributes of the net module (their Python meaning is an implementation detail)."""
+    import builtins
+    import keyword
+
+    from flow.record.fieldtypes import net
+
+    wl = refselector._whitelist()
+    valid = set(wl)
+    for t in wl:
+        parts = t.split(".")
+        for i in range(1, len(parts)):
+            valid.add(".".join(parts[:i]))
+    cands = set()
+    for t in wl:
+        for i in range(1, len(t)):
+            if t[i - 1] != "." and t[i] != ".":
+                cands.add(t[:i])
+        for ext in ("x", "s", "3", "_"):
+            cands.add(t + ext)
+    out = []
+    for c in sorted(cands):
+        if c in valid or c.endswith("."):
+            continue
+        root = c.split(".")[0]
+        if "." not in c:
+            if c in refselector.RESERVED_NAMES or hasattr(builtins, c) or keyword.iskeyword(c) or not c.isidentifier():
+                continue
+            out.append((c, False))
+        else:
+            if root != "net" or not all(p.isidentifier() for p in c.split(".")):
+                continue
+            obj, ok = net, True
+            for p in c.split(".")[1:]:
+                if not hasattr(obj, p):
+                    ok = False
+                    break
+                obj = getattr(obj, p)
+            if ok:
+                continue   # e.g. net.ip is a real submodule
+            out.append((c, True))
+    return out
+
+
+def near_miss_exprs(name, dotted):
+    if dotted:
+        # an unknown attribute of a namespace: rejected, or treated like a missing attribute (comparison false, C08)
+        return ["r.ip == %s" % name, "r.ip != %s" % name, "%s == r.s" % name, "%s != r.n" % name, "r.n != %s and True" % name]
+    return [
+        "r.n == %s" % name, "r.n != %s" % name, "%s == r.s" % name, "%s != r.s" % name, "not %s" % name, name, "%s in names(r)" % name,
+        "r.n in [%s]" % name, "(r.n, %s) != (1, 2)" % name, "any(q_ != %s for q_ in [r.n])" % name, "lower(%s) != 'x'" % name,
+        "True and %s" % name, "False or r.s != %s" % name, "%s(1) != 1" % name, "%s('x') != r.s" % name, "%s.x != 1" % name,
+        "r.n != %s.lower" % name, "r.s + 'x' != %s" % name, "r.ip != %s" % name,
+    ]
+
+
+def exec_near_miss(ctx, case):
+    """A name that is not in the language (and not in Python): both engines have to reject the expression.  For a
+    dotted name under a real namespace the interpreted engine may instead treat it as a missing attribute, whose
+    comparisons are false (C08)."""
+    from flow.record.selector import CompiledSelector, Selector
+
+    expr, dotted = case["expr"], case["kind"] == "dotted"
+    rec = pool_for(ctx, case["pool"])[case["rec"]]
+    ctx.ev()
+    ctx.cell("near-miss", case["kind"])
+    ctx.nontrivial("near-miss", expr)
+    ctx.event("near-miss expressions")
+    for engine, cls in (("interpreted", Selector), ("compiled", CompiledSelector)):
+        got, exc = run_engine(cls, expr, rec)
+        if got[0] == "E":
+            ctx.event("%s:near-miss:rejected" % engine)
+            continue
+        if dotted and got == ("V", False):
+            ctx.event("%s:near-miss:treated-as-missing-attribute" % engine)
+            continue
+        ctx.event("%s:near-miss:VIOLATION" % engine)
+        ctx.violation(None, "%s engine evaluated an expression containing a name outside the language instead of rejecting it" % engine,
+                      detail={"expression": expr, "name": case["name"], "engine": engine, "result": got[1], "record": repr(rec)[:600]})
+    ctx.sample({"expr": expr, "name": case["name"], "expected": "rejected"}, kind="near-miss:" + case["kind"])
 
 
 def deep_for(ctx, seed):
@@ -489,6 +630,8 @@ def execute(ctx, case):
     from flow.record.selector import CompiledSelector, Selector
 
     expr = case["expr"]
+    if case["k"] == "near-miss":
+        return exec_near_miss(ctx, case)
     if case["k"] == "grouped-seq":
         # one long-lived selector object per engine sees the groups one after the other, next to fresh objects
         groups = grouped_for(ctx, case["pool"])
@@ -593,6 +736,7 @@ def finish(ctx):
         ctx.require(have >= need, "must-support kind %s has only %d defined cases in shard %d (need %d)" % (k, have, ctx.shard, need))
     ctx.require(ctx.events.get("oracle_selfcheck_agree", 0) > 0, "the oracle self-check against builtin eval never ran")
     ctx.require(ctx.events.get("defined:may-reject", 0) > 0, "no defined may-reject case")
+    ctx.require(ctx.events.get("near-miss expressions", 0) > 0, "no near-miss identifier was tried in shard %d" % ctx.shard)
     ctx.require(ctx.events.get("defined:grouped-sequence", 0) > 0, "no defined typed-matcher case on a sequence of grouped records")
     for k in range(4):
         ctx.require(ctx.cells.get("typed-matcher-depth/depth%d/True" % k, 0) > 0,
